@@ -1173,6 +1173,16 @@ pub fn gen_module(rng: &mut Rng, cfg: &GenCfg) -> Generated {
         let r = (0..nr).map(|_| *rng.pick(&vts)).collect();
         types.push((p, r));
     }
+    if cfg.ref_types {
+        // signatures `() -> (ref)`: a construct with one reference result keeps its one-byte block type
+        // even when such a signature is in the type section
+        if rng.chance(1, 2) {
+            types.push((vec![], vec![VT::FuncRef]));
+        }
+        if rng.chance(1, 2) {
+            types.push((vec![], vec![VT::ExternRef]));
+        }
+    }
     if cfg.multi_value {
         types.push((vec![VT::I32], vec![VT::I32]));
         // an identity signature that only empty constructs use (see `stmt`)
@@ -1388,7 +1398,13 @@ pub fn gen_module(rng: &mut Rng, cfg: &GenCfg) -> Generated {
             continue;
         };
         let mut nitems = rng.below(4) as usize;
-        let use_exprs = cfg.ref_types && rng.chance(1, 2);
+        let mut use_exprs = cfg.ref_types && rng.chance(1, 2);
+        // an empty function-index segment in front of the others, now and then (later segments must
+        // keep their indices)
+        if n_elem == 0 && cfg.bulk && rng.chance(1, 3) {
+            nitems = 0;
+            use_exprs = false;
+        }
         let t_pick = if tables.is_empty() { 0 } else { rng.below(tables.len() as u64) as u32 };
         let t64 = mode == 0 && tables[t_pick as usize].is64;
         let offset_ty = if t64 { VT::I64 } else { VT::I32 };
